@@ -186,6 +186,7 @@ func goastVerdict(af *ast.File, fset *token.FileSet, names map[string]string) ob
 
 func checkC09(c *Ctx) {
 	c09Package(c)
+	c09Redecorate(c)
 	c.Assume("go/types (Uses, Defs, PkgName, scopes) gives the reference meaning of every identifier, independently of the resolvers under test")
 	mc, err := RunTLC(TLCRun{Module: "Resolve", Workers: 8, Timeout: 10 * time.Minute, Cfg: fmt.Sprintf("CONSTANTS Names = {\"a\",\"b\"} ImpPaths = {\"p1\",\"p2\",\"C\"} MaxSpecs = %d\nINIT Init\nNEXT Next\nINVARIANTS RefusesExactly TableSound\nCHECK_DEADLOCK FALSE\n", map[bool]int{true: 3, false: 4}[c.Quick()])})
 	if err != nil || !mc.OK() {
@@ -553,6 +554,82 @@ func c09Package(c *Ctx) {
 			if got := pathsOf(d, af); strings.Join(got, " ") != strings.Join(want[i], " ") {
 				c.Fail(Finding{Sig: "package-decoration-paths-differ", Input: key, What: fmt.Sprintf("file %d decorated as part of the package: %v; decorated alone: %v", i+1, got, want[i]), Replay: obj{"kind": "none"}})
 			}
+		}
+	}
+}
+
+// c09Redecorate: the syntax-based resolver asked about an *ast.File that did not come from go/parser:
+// the restorer's own output (no object resolution, no File.Imports list), decorated again. Every
+// identifier gets the path it got the first time, and a dot-import is refused as it is for a parsed file.
+func c09Redecorate(c *Ctx) {
+	names := map[string]string{"example.com/one": "one", "example.com/two": "two", "strings": "strings", "fmt": "fmt"}
+	srcs := map[string]string{
+		"plain-and-alias": "package p\n\nimport (\n\t\"fmt\"\n\tx \"example.com/one\"\n\t\"example.com/two\"\n)\n\nfunc f() { fmt.Println(x.V, two.W) }\n",
+		"single":          "package p\n\nimport \"strings\"\n\nvar b strings.Builder\n",
+		"dot-import":      "package p\n\nimport . \"fmt\"\n\nfunc f() { Println() }\n",
+	}
+	pathsOf := func(f *dst.File) []string {
+		var out []string
+		dst.Inspect(f, func(n dst.Node) bool {
+			if id, ok := n.(*dst.Ident); ok && id.Path != "" {
+				out = append(out, id.Name+"@"+id.Path)
+			}
+			return true
+		})
+		return out
+	}
+	var keys []string
+	for k := range srcs {
+		keys = append(keys, k)
+	}
+	sort.Strings(keys)
+	for _, k := range keys {
+		key := "redecorate-restored-ast|" + k
+		c.Eval(key, true)
+		mk := func(fset *token.FileSet) *decorator.Decorator {
+			return decorator.NewDecoratorWithImports(fset, "example.com/p", goast.WithResolver(simple.New(names)))
+		}
+		if k == "dot-import" {
+			// decorated without import resolution (the resolver refuses it), restored, then asked again
+			f0, err := decorator.Parse(srcs[k])
+			if err != nil {
+				c.Infra(err.Error())
+				return
+			}
+			r := decorator.NewRestorer()
+			af, err := r.RestoreFile(f0)
+			if err != nil {
+				c.Infra(err.Error())
+				return
+			}
+			var derr error
+			if msg := guard(func() { _, derr = mk(r.Fset).DecorateFile(af) }); msg != "" {
+				c.Fail(Finding{Sig: "redecorate-panics", Input: key, What: msg, Replay: obj{"kind": "none"}})
+			} else if derr == nil {
+				c.Fail(Finding{Sig: "dot-import-not-refused", Input: key, What: "the restorer's *ast.File with a dot-import is decorated by the syntax-based resolver without an error (the parsed file is refused)", Replay: obj{"kind": "none"}})
+			}
+			continue
+		}
+		f1, err := mk(token.NewFileSet()).Parse(srcs[k])
+		if err != nil {
+			c.Infra("redecorate source is refused: " + err.Error())
+			return
+		}
+		want := pathsOf(f1)
+		r := decorator.NewRestorerWithImports("example.com/p", simple.New(names))
+		af, err := r.RestoreFile(f1)
+		if err != nil {
+			c.Fail(Finding{Sig: "redecorate-restore-fails", Input: key, What: err.Error(), Replay: obj{"kind": "none"}})
+			continue
+		}
+		var f2 *dst.File
+		var derr error
+		if msg := guard(func() { f2, derr = mk(r.Fset).DecorateFile(af) }); msg != "" || derr != nil {
+			c.Fail(Finding{Sig: "redecorate-fails", Input: key, What: fmt.Sprintf("%s %v", msg, derr), Replay: obj{"kind": "none"}})
+			continue
+		}
+		if got := pathsOf(f2); strings.Join(got, " ") != strings.Join(want, " ") {
+			c.Fail(Finding{Sig: "redecorate-paths-differ", Input: key, What: fmt.Sprintf("first decoration %v, the restored *ast.File decorated again %v", want, got), Replay: obj{"kind": "none"}})
 		}
 	}
 }
